@@ -5,6 +5,10 @@ ROOT = os.path.dirname(os.path.dirname(os.path.abspath(__file__)))
 
 # id -> (technique, level text, level note, design ref)
 CHECKS = {
+ "C11": ("model-based differential on generated template graphs: an independent graph analysis (name resolution through fallback prefixes, dangling edges, extends cycles, include cycles) decides accepted/rejected and, for single-fault sets, the error kind; every accepted set is rendered from every template and must return; registration and rendering run in crash-isolated worker subprocesses",
+         "Exploration: 900k random graphs over 2-9 templates and 200k chains/rings of 2-32 per quick run (x10 thorough), with include edges placed at top level, in blocks, component bodies, captures, dead branches and loops, missing targets, three directories of which up to two are fallback prefixes in either order (short and full spellings, exact names shadowing prefixed ones); 16 hand-written sets incl. the F9/F10 shapes.",
+         "Trusted base: the 60-line graph analysis in harness/src/props/c11.rs and the process supervisor. Termination is observed for depths <= 32 in the reference environment; with several fault classes only accepted-vs-rejected is compared.",
+         "DESIGN.md section 4 C11"),
  "C05": ("model-based differential: generated component definitions and call sites against a reference binder (declared ∪ defaults, rest map, unknown/missing/type errors, inferred types) and the reference interpreter on a fresh scope, with observation points over the caller's whole name pool inside every component body (isolation); render_component through the API against the same binder; enumeration of fallback-prefix priority configurations; crash-isolated recursion shapes on an 8 MiB stack",
          "Exploration: 240k generated sets (quick; x20 thorough) of 1-4 components over three files, called inline / with body / in loops / in captures / from an included template / from other components, with named, shorthand and spread attributes (literals of every kind, caller variables, right and wrong types, missing and extra); 1.7M render_component comparisons; 30k priority configurations; 70 recursion cases (direct, mutual, through includes, through bodies, in loops and captures; depth 0..100000 and unbounded).",
          "Trusted base: the reference binder bind_component and interpreter in harness/src/stmt.rs. Not specified and therefore discarded: undefined attribute values, explicit `body` attributes, spreads with non-string keys; duplicates at a shadowed priority are accepted or rejected by the engine depending on template-name order (not claimed either way).",
